@@ -203,4 +203,40 @@ __CPROVER_ensures(__CPROVER_return_value == WOPN_ERR_OK ==> file->inst.inst_flag
                   file->inst.inst_name[31] == 0)
 ;
 
+
+/* ---- spec: bank file --------------------------------------------------------------------------------- */
+#define SPEC_MAX1(n) ((n) != 0 ? (n) : 1)
+
+WOPNFile *WOPN_Init(uint16_t melodic_banks, uint16_t percussive_banks)
+__CPROVER_assigns()
+__CPROVER_ensures(__CPROVER_return_value == NULL ||
+    (__CPROVER_is_fresh(__CPROVER_return_value, sizeof(WOPNFile)) &&
+     __CPROVER_return_value->banks_count_melodic == SPEC_MAX1(melodic_banks) &&
+     __CPROVER_return_value->banks_count_percussion == SPEC_MAX1(percussive_banks) &&
+     __CPROVER_is_fresh(__CPROVER_return_value->banks_melodic, (size_t)SPEC_MAX1(melodic_banks) * sizeof(WOPNBank)) &&
+     __CPROVER_is_fresh(__CPROVER_return_value->banks_percussive, (size_t)SPEC_MAX1(percussive_banks) * sizeof(WOPNBank)) &&
+     __CPROVER_return_value->version == 0 && __CPROVER_return_value->lfo_freq == 0 &&
+     __CPROVER_return_value->chip_type == 0 && __CPROVER_return_value->volume_model == 0))
+;
+
+#define SPEC_IS_LOAD_ERROR(e) ((e) == WOPN_ERR_BAD_MAGIC || (e) == WOPN_ERR_UNEXPECTED_ENDING || (e) == WOPN_ERR_NEWER_VERSION || \
+                               (e) == WOPN_ERR_OUT_OF_MEMORY || (e) == WOPN_ERR_NULL_POINTER)
+
+WOPNFile *WOPN_LoadBankFromMem(void *mem, size_t length, int *error)
+__CPROVER_requires(SPEC_MAGIC_PTR_OK(wopn2_magic1, SPEC_WOPN_MAGIC1) && SPEC_MAGIC_PTR_OK(wopn2_magic2, SPEC_WOPN_MAGIC2))
+/* no well-formedness assumption at all: any block of exactly `length` bytes */
+__CPROVER_requires(mem == NULL || __CPROVER_is_fresh(mem, length))
+__CPROVER_requires(error == NULL || __CPROVER_is_fresh(error, sizeof(int)))
+__CPROVER_assigns(error != NULL : *error)
+__CPROVER_ensures(__CPROVER_return_value == NULL ==> (error == NULL || SPEC_IS_LOAD_ERROR(*error)))
+__CPROVER_ensures(mem == NULL ==> __CPROVER_return_value == NULL)
+__CPROVER_ensures(__CPROVER_return_value != NULL ==>
+    (__CPROVER_is_fresh(__CPROVER_return_value, sizeof(WOPNFile)) &&
+     __CPROVER_return_value->version <= 2 && __CPROVER_return_value->lfo_freq <= 15 && __CPROVER_return_value->chip_type <= 1 &&
+     __CPROVER_return_value->volume_model == 0 &&
+     __CPROVER_return_value->banks_count_melodic >= 1 && __CPROVER_return_value->banks_count_percussion >= 1 &&
+     __CPROVER_is_fresh(__CPROVER_return_value->banks_melodic, (size_t)__CPROVER_return_value->banks_count_melodic * sizeof(WOPNBank)) &&
+     __CPROVER_is_fresh(__CPROVER_return_value->banks_percussive, (size_t)__CPROVER_return_value->banks_count_percussion * sizeof(WOPNBank))))
+;
+
 #endif
